@@ -387,6 +387,20 @@ def run_stream(ctx, scs, stream, extra_cfg=None, n_plans=2):
                 bi, be = prune_inputs.builder_imports(gens[0].files(), set(an.graph), set(an.enum_names))
                 an.custom, an.builder_inputs, an.builder_enums = True, bi, be
                 run.dist("custom_ops_builder_imports", f"inputs={len(bi)},enums={len(be)}")
+            # the variables' types and the enums reachable from operations / fragments come from the MODEL
+            # (Model/PruneDoc.v); the independent Python walk only cross-checks them (as sets, the order of the
+            # accumulation is irrelevant to the filter)
+            dm = model.call("C09", prune_inputs.docenums_cmd(an))
+            run.count()
+            if model.is_error(dm) or dm == "none":
+                run.broken("K2 docenums", f"model returned {dm!r} for seed {sc.seed}")
+                continue
+            m_ai, m_ae, m_re, m_fe = dm[1]
+            walk = (an.arg_inputs, an.arg_enums, an.res_enums, an.frag_enums)
+            if [sorted(set(x)) for x in (m_ai, m_ae, m_re, m_fe)] != [sorted(set(x)) for x in walk] or m_ai != an.arg_inputs:
+                run.violation(f"K2: Model/PruneDoc.v doc_analysis {dm[1]} differs from the independent graphql-core walk {walk}",
+                              {"seed": sc.seed, "schema": sc.sdl, "queries": sc.queries}, found_input=False)
+            an.arg_inputs, an.arg_enums, an.res_enums, an.frag_enums = m_ai, m_ae, m_re, m_fe
             cfg0 = gens[0].res.get("config", {})
             c, ins_cls, en_cls, needs, dc = model_cmds(an, gens[0].files(), cfg0.get("scalars"),
                                                        cfg0.get("convert_to_snake_case", True))
@@ -436,6 +450,7 @@ def run(ctx):
     scs.insert(0, prune_scen.deep_scalar_regression())
     scs.insert(1, prune_scen.last_operation_enum_regression())
     scs.insert(2, prune_scen.subscription_input_regression())
+    scs.insert(3, prune_scen.coq_doc_example())
     n1 = run_stream(ctx, scs, "prune", n_plans=3 if ctx.thorough else 2)
     mains = []
     for i in range(n_main):
